@@ -186,6 +186,8 @@ def extra_instances():
     # three consecutive objects without connector, ids
     add(M("C[>1]", S("[>1]", ["[<1]CC[>1]"], [], "[<1]", g(30)), S("[>1]", ["[<1]CO[>1]"], [], "[<1]", g(30)),
           S("[>1]", ["[<1]CS[>1]"], [], "[<1]", g(40)), "[<1]F", name="triblock-ids"))
+    # a descriptor in a branch of its own that follows a sibling branch with atoms: the descriptor's atom is the branch root
+    add(M("CC(N)([>])CO", S("[>]", ["[<]CC(C)([>])C(=O)OC", "[<]CC(Cl)([>])"], ["[<][H]"], "[<]", g(120)), "[<]C(C)(O)N", name="descriptor-after-sibling-branch"))
     # two end-group types and a graft unit
     add(M("C[>]", S("[>]", ["[<]CC([>2])C[>]", "[<2]OC[>2]"], ["[<2|2|]F", "[<2][H]", "[<]Cl"], "[<]", g(60)), "[<]O", name="graft"))
     return I
